@@ -1496,6 +1496,8 @@ class Walker:
             want = rec < 2
         elif self.inline == "deep" and self.opaque is not None and f.qualname in self.opaque:
             want = force and rec < 1
+        elif self.inline == "deep" and self.opaque is not None and f.qualname in _SIMPLE_TODAY and not self.is_simple(f) and not f.prop:
+            want = force and rec < 1  # a former one-liner that grew several paths: kept as a call (see anchors.py)
         elif self.inline == "deep":
             want = rec < 2
         elif self.inline == "light":
@@ -1599,6 +1601,9 @@ class Walker:
             s.loops = saved_loops
             out.append((s, rv))
         return out
+
+
+from .anchors import SIMPLE as _SIMPLE_TODAY  # noqa: E402
 
 
 def _expand_kwdict(kwargs: dict) -> dict:
